@@ -22,6 +22,8 @@ def units(tier):
     return [
         H("C06", "lokyverif.harness.c02_broken", "check_flag_shutting_down", t, ["loky.process_executor:_ExecutorManagerThread.flag_executor_shutting_down", "loky.process_executor:_ExecutorManagerThread.kill_workers"], "0..3 pending, 0..3 workers"),
         H("C06", "lokyverif.harness.c02_broken", "check_flags_step", t, ["loky.process_executor:_ExecutorFlags.flag_as_shutting_down"], "all 24 combinations of previous flags and request (a forced request after a plain one is recorded)"),
+        H("C06", "lokyverif.harness.c02_broken", "check_shutdown_twice", 300, ["loky.process_executor:ProcessPoolExecutor.shutdown"],
+          "shutdown(wait=False) followed by shutdown(wait=*, kill_workers=*) on the same object"),
         H("C06", "lokyverif.harness.c02_broken", "check_shutdown_call", t, ["loky.process_executor:ProcessPoolExecutor.shutdown"], "wait / kill_workers / manager started: all 8 combinations"),
         H("C06", M, "check_posix_recursive_kill", t, [U + "_posix_recursive_kill", U + "_kill_process_tree_without_psutil", U + "_kill"], "trees of <=5 processes, one may have vanished; each child forked by the main or by a helper thread of its parent (pgrep and a per-thread procfs view both offered)"),
         H("C06", M, "check_psutil_kill", t, [U + "_kill_process_tree_with_psutil", U + "kill_process_tree"], "trees of <=5 processes, one may have vanished, root may be gone"),
